@@ -72,6 +72,7 @@ package payload
 //@   ensures 0 <= r0 && r0 <= len(p)
 
 //@ func (*PartDecoder).Read
+//@   dead log.Error
 //@   requires pr != nil && pr.meta != nil && 0 <= pr.pos && pr.pos <= pr.meta.End - pr.meta.Beg
 //@   ensures  never-beyond-announced: 0 <= n && n <= len(out) && pr.pos == old(pr.pos) + n && pr.pos <= pr.meta.End - pr.meta.Beg
 //@   ensures  eof-exactly-at-end: pr.pos == pr.meta.End - pr.meta.Beg ==> err == io.EOF
